@@ -402,8 +402,12 @@ func c02ServerMain(args []string) int {
 		return 2
 	}
 	srv := mcp.NewStdioServer("verif-c02", "1.0", mcp.WithStdioServerLogger(silentLogger{}))
-	c02Register(&spec, func(t *mcp.Tool, h func(context.Context, *mcp.CallToolRequest) (*mcp.CallToolResult, error)) { srv.RegisterTool(t, h) },
-		func(p *mcp.Prompt, h func(context.Context, *mcp.GetPromptRequest) (*mcp.GetPromptResult, error)) { srv.RegisterPrompt(p, h) },
+	c02Register(&spec, func(t *mcp.Tool, h func(context.Context, *mcp.CallToolRequest) (*mcp.CallToolResult, error)) {
+		srv.RegisterTool(t, h)
+	},
+		func(p *mcp.Prompt, h func(context.Context, *mcp.GetPromptRequest) (*mcp.GetPromptResult, error)) {
+			srv.RegisterPrompt(p, h)
+		},
 		func(r *mcp.Resource, h func(context.Context, *mcp.ReadResourceRequest) ([]mcp.ResourceContents, error)) {
 			srv.RegisterResources(r, h)
 		})
@@ -424,8 +428,12 @@ func c02Run(spec *c02Spec) (outs []c02Out, broken string) {
 			opts = append(opts, mcp.WithStatelessMode(true))
 		}
 		srv := mcp.NewServer("verif", "1.0", opts...)
-		c02Register(spec, func(t *mcp.Tool, h func(context.Context, *mcp.CallToolRequest) (*mcp.CallToolResult, error)) { srv.RegisterTool(t, h) },
-			func(p *mcp.Prompt, h func(context.Context, *mcp.GetPromptRequest) (*mcp.GetPromptResult, error)) { srv.RegisterPrompt(p, h) },
+		c02Register(spec, func(t *mcp.Tool, h func(context.Context, *mcp.CallToolRequest) (*mcp.CallToolResult, error)) {
+			srv.RegisterTool(t, h)
+		},
+			func(p *mcp.Prompt, h func(context.Context, *mcp.GetPromptRequest) (*mcp.GetPromptResult, error)) {
+				srv.RegisterPrompt(p, h)
+			},
 			func(r *mcp.Resource, h func(context.Context, *mcp.ReadResourceRequest) ([]mcp.ResourceContents, error)) {
 				srv.RegisterResources(r, h)
 			})
@@ -439,8 +447,12 @@ func c02Run(spec *c02Spec) (outs []c02Out, broken string) {
 		cleanup = func() { c.Close(); closeClientConns(ts); closeTS(ts) }
 	case "legacy":
 		srv := mcp.NewSSEServer("verif", "1.0", mcp.WithSSEServerLogger(silentLogger{}), mcp.WithKeepAlive(false))
-		c02Register(spec, func(t *mcp.Tool, h func(context.Context, *mcp.CallToolRequest) (*mcp.CallToolResult, error)) { srv.RegisterTool(t, h) },
-			func(p *mcp.Prompt, h func(context.Context, *mcp.GetPromptRequest) (*mcp.GetPromptResult, error)) { srv.RegisterPrompt(p, h) },
+		c02Register(spec, func(t *mcp.Tool, h func(context.Context, *mcp.CallToolRequest) (*mcp.CallToolResult, error)) {
+			srv.RegisterTool(t, h)
+		},
+			func(p *mcp.Prompt, h func(context.Context, *mcp.GetPromptRequest) (*mcp.GetPromptResult, error)) {
+				srv.RegisterPrompt(p, h)
+			},
 			func(r *mcp.Resource, h func(context.Context, *mcp.ReadResourceRequest) ([]mcp.ResourceContents, error)) {
 				srv.RegisterResources(r, h)
 			})
